@@ -34,6 +34,7 @@ Inputs ==
   \cup {[k |-> "Data", w |-> w, sf |-> sf] : w \in BOOLEAN, sf \in {"known", "unknown", "badbody"}}
   \cup {[k |-> "AppRequest"], [k |-> "WaitT3"]}
   \cup {[k |-> "DataFor", sys |-> x] : x \in {"opendata", "opensel"}}
+  \cup {[k |-> "PrimaryFor", w |-> w] : w \in BOOLEAN}      \* a PRIMARY of the peer whose system bytes equal those of the endpoint's open request
 
 R(en, s, out) == [en |-> en, s |-> s, out |-> out]
 
@@ -88,6 +89,12 @@ Eff(s, i) ==
                   IF s.cs = "SEL" THEN [s EXCEPT !.openData = FALSE] ELSE s,
                   IF s.cs = "SEL" THEN OutRep(<<>>, {}, <<>>) ELSE Out(<<Fr("Reject.req", "echo", 4)>>, {}, <<>>, FALSE))
            ELSE R(s.cs = "NS" /\ s.openSel, s, Out(<<Fr("Reject.req", "echo", 4)>>, {}, <<>>, FALSE))
+    [] i.k = "PrimaryFor" ->
+         \* system bytes are unique per originator only: it is an ordinary data message (delivered when SELECTED, rejected otherwise),
+         \* the endpoint's own transaction stays open
+         R(s.cs # "NC" /\ s.openData, s,
+           IF s.cs = "SEL" THEN Out(<<>>, {}, <<>>, TRUE)
+                           ELSE Out(<<Fr("Reject.req", "echo", 4)>>, {}, <<>>, FALSE))
     [] i.k = "Data" ->
          R(s.cs # "NC", s,
            IF s.cs = "SEL" THEN Out(<<>>, {}, <<>>, TRUE)
